@@ -171,6 +171,19 @@ C02_BornOwned ==
 \* =======================================================================================
 \* C04 -- adoption, release and creation obey the ControllerRef rules
 \* =======================================================================================
+\* an owned child whose labels stopped matching the selector is released (its controller reference removed) by the next
+\* sync of a live parent that gets as far as calling its hook
+C04_ReleaseDue ==
+  (IsEv("SyncEnd") /\ ~IsDecorator /\ E.a \in DOMAIN ctx /\ ctx[E.a].active /\ ctx[E.a].nHooks > 0 /\ ctx[E.a].selOK
+     /\ ~ctx[E.a].parent.deleting /\ ctx[E.a].fresh)
+  => LET c == ctx[E.a] IN
+     \A k \in DOMAIN c.obs :
+        (c.obs[k].kind \in ChildKinds /\ c.obs[k].ctrl = c.parent.uid /\ ~Matches(c.sel, c.obs[k].labels)
+           /\ (c.parent.ns # "" => c.obs[k].ns = c.parent.ns))
+        => \/ k \in c.released
+           \/ \E i \in DOMAIN c.failedReqs : c.failedReqs[i][2] = k[1] /\ c.failedReqs[i][3] = k[3]
+           \/ ~Lookup(store, k).live \/ Lookup(store, k).ctrl # c.parent.uid \/ Lookup(store, k).uid # c.obs[k].uid
+           \/ Report("C04", "C04_ReleaseDue", <<"owned child that no longer matches was not released", k>>)
 C04_AdoptOnlyIf ==
   (ReqE /\ IsOwnedKind(E) /\ Accepted(E) /\ E.pre.live /\ E.pre.ctrl = "" /\ E.post.live /\ E.post.ctrl = PUid /\ E.verb = "update")
   => LET o == Lookup(C.obs, Key(E)) IN
